@@ -1,1 +1,434 @@
-(* Proofs/Newton.v -- stub, to be filled in *)
+(* Proofs/Newton.v -- lemmas about Model/Newton.v: the six solve methods (C17, termination half:
+   any user function, any arithmetic) and the finite-difference Jacobian (C18). *)
+From Coq Require Import List Arith Lia Bool.
+From OV Require Import Base.Panic Base.Arith Model.Complex Model.Vector Model.Matrix Model.Solve
+  Model.Newton Proofs.Matrix Proofs.NewtonLoop.
+Import ListNotations.
+
+(* destruct a chain of binds in a hypothesis  H : (let* x := e in ...) = Ok r *)
+Ltac inv_bind H :=
+  repeat match type of H with
+  | bind ?e ?f = Ok ?r =>
+      let x := fresh "x" in let E := fresh "E" in
+      apply bind_ok in H as (x & E & H)
+  end.
+
+(* ====================================================================================== *)
+(* small list / matrix facts (kept local: prefixed nw_)                                     *)
+(* ====================================================================================== *)
+Lemma nw_zipw_length {A : Arith} (g : A -> A -> A) (u v : list A) :
+  length u = length v -> length (zipw g u v) = length u.
+Proof. intros H. unfold zipw. rewrite map_length, combine_length. lia. Qed.
+
+Lemma nw_vsub_length {A : Arith} (u v w : list A) : vsub u v = Ok w -> length w = length u /\ length v = length u.
+Proof.
+  unfold vsub. destruct (Nat.eqb_spec (length u) (length v)) as [E|]; [|discriminate].
+  intros H; injection H as <-. split; [now apply nw_zipw_length|auto].
+Qed.
+
+Lemma nw_vsub_ok {A : Arith} (u v : list A) : length u = length v -> vsub u v = Ok (zipw sub u v).
+Proof. intros H. unfold vsub. now apply Nat.eqb_eq in H as ->. Qed.
+
+Lemma nw_mapM_length {Y Z} (g : Y -> res Z) l l' : mapM g l = Ok l' -> length l' = length l.
+Proof.
+  revert l'; induction l as [|y t IH]; cbn; intros l' H.
+  - now injection H as <-.
+  - inv_bind H. injection H as <-. cbn. f_equal. auto.
+Qed.
+
+Lemma nw_mapM_total {Y Z} (g : Y -> res Z) l :
+  (forall y, exists z, g y = Ok z) -> exists l', mapM g l = Ok l'.
+Proof.
+  intros Hg. induction l as [|y t [t' IH]]; cbn; [eauto|].
+  destruct (Hg y) as [z ->]. cbn. rewrite IH. cbn. eauto.
+Qed.
+
+Lemma nw_upd_list_same {Y} (l : list Y) i d : upd_list l i (nth i l d) = l.
+Proof.
+  revert i; induction l as [|h t IH]; intros [|i]; cbn; auto. now rewrite IH.
+Qed.
+
+Lemma nw_upd_list_twice {Y} (l : list Y) i a b : upd_list (upd_list l i a) i b = upd_list l i b.
+Proof.
+  revert i; induction l as [|h t IH]; intros [|i]; cbn; auto. now rewrite IH.
+Qed.
+
+Section MatFacts.
+Context {A : Arith}.
+
+Lemma nw_mset_shape (m : matrix A) i j x m' :
+  mset m i j x = Ok m' -> rows m' = rows m /\ cols m' = cols m /\ length (buf m') = length (buf m).
+Proof.
+  unfold mset. intros H. inv_bind H. injection H as <-. cbn.
+  apply upd_Ok_inv in E as [_ ->]. now rewrite upd_list_length.
+Qed.
+
+Lemma nw_set_col_shape (m : matrix A) c v m' :
+  set_col m c v = Ok m' -> rows m' = rows m /\ cols m' = cols m /\ length (buf m') = length (buf m).
+Proof.
+  unfold set_col.
+  destruct (negb (length v =? rows m)); [discriminate|].
+  destruct (cols m <=? c); [discriminate|].
+  intros H.
+  eapply (for_inv_partial (fun _ (s : matrix A) =>
+           rows s = rows m /\ cols s = cols m /\ length (buf s) = length (buf m))) in H;
+    auto; [lia|].
+  intros i s s1 _ (R & C & B) Hb. inv_bind Hb. apply nw_mset_shape in Hb as (R1 & C1 & B1).
+  repeat split; congruence.
+Qed.
+
+(* the repaired column setter accepts every column of the matrix *)
+Lemma nw_set_col_total (m : matrix A) c v :
+  wf m -> length v = rows m -> c < cols m -> exists m', set_col m c v = Ok m'.
+Proof.
+  intros W Lv Hc. unfold set_col.
+  apply Nat.eqb_eq in Lv as Lv'. rewrite Lv'. cbn [negb].
+  destruct (Nat.leb_spec (cols m) c) as [?|_]; [lia|].
+  destruct (for_inv (fun _ (s : matrix A) =>
+              rows s = rows m /\ cols s = cols m /\ length (buf s) = length (buf m))
+              0 (rows m) (fun i m0 => let* x := rd v i in mset m0 i c x) m) as (m' & E & _);
+    [lia|auto| |eauto].
+  intros i s Hi (R & C & B).
+  rewrite (rd_ok v i zero) by lia. cbn.
+  unfold mset. rewrite upd_ok.
+  - cbn. eexists; split; [reflexivity|]. cbn. rewrite upd_list_length. auto.
+  - rewrite B, C. unfold wf in W. rewrite W. nia.
+Qed.
+
+End MatFacts.
+
+(* ====================================================================================== *)
+(* C17: the passes of the six methods                                                      *)
+(* ====================================================================================== *)
+Section Steps.
+Context (O : NOps).
+Notation A := (NA O).
+Notation R := (NR O).
+
+(* ---- scalar pass: exactly three calls, at current + delta, current - delta, current ---- *)
+Lemma scalar_step_calls tl dl (f : A -> res A) x x' b e :
+  scalar_step O tl dl f x = Ok (x', b, e) ->
+  e = [add x (emb O dl); sub x (emb O dl); x].
+Proof.
+  unfold scalar_step. intros H. inv_bind H. now injection H as _ _ <-.
+Qed.
+
+(* the value of one scalar pass, spelled out *)
+Lemma scalar_step_inv tl dl (f : A -> res A) x x' b e :
+  scalar_step O tl dl f x = Ok (x', b, e) ->
+  exists fp fm deriv fc dx,
+    f (add x (emb O dl)) = Ok fp /\ f (sub x (emb O dl)) = Ok fm /\
+    divr O (sub fp fm) (mul (two O) dl) = Ok deriv /\ f x = Ok fc /\ div fc deriv = Ok dx /\
+    x' = sub x dx /\ b = leb (mag O dx) tl.
+Proof.
+  unfold scalar_step. intros H. inv_bind H. injection H as <- <- _.
+  do 5 eexists. repeat split; eauto.
+Qed.
+
+(* ---- Jacobian: one call at the point, then one per coordinate ---- *)
+Lemma jacobian_tr_calls_length (f : list A -> res (list A)) x d st J evs :
+  jacobian_tr O f x d = Ok (st, J, evs) -> length evs = S (length x).
+Proof.
+  unfold jacobian_tr. intros H. inv_bind H.
+  apply (for_inv_partial (fun i (s : list A * matrix A * list (list A)) => length (snd s) = S i)
+           0 (length x) _ _ _ (Nat.le_0_l _)) in H; auto.
+  intros i [[s j] ev] s1 _ Hi Hb. cbn in Hi. unfold jac_body in Hb. inv_bind Hb.
+  injection Hb as <-. cbn. rewrite app_length. cbn. lia.
+Qed.
+
+Lemma jacobian_calls_length (f : list A -> res (list A)) x d J evs :
+  jacobian O f x d = Ok (J, evs) -> length evs = S (length x).
+Proof.
+  unfold jacobian. intros H. inv_bind H. destruct x0 as [[st J'] ev]. injection H as _ <-.
+  eapply jacobian_tr_calls_length; eauto.
+Qed.
+
+(* ---- finite-difference system pass: n + 2 calls, the length of the iterate is kept ---- *)
+Lemma sys_step_calls tl dl (f : list A -> res (list A)) x x' b e :
+  sys_step O tl dl f x = Ok (x', b, e) -> length x' = length x /\ length e = length x + 2.
+Proof.
+  unfold sys_step. intros H. inv_bind H. injection H as <- _ <-.
+  destruct x2 as [J ev]. apply jacobian_calls_length in E1.
+  unfold vsub_assign in E3. apply nw_vsub_length in E3 as [L _].
+  split; [exact L|]. cbn. lia.
+Qed.
+
+(* the value of one system pass, spelled out *)
+Lemma sys_step_inv tl dl (f : list A -> res (list A)) x x' b e :
+  sys_step O tl dl f x = Ok (x', b, e) ->
+  exists fv maxres J jev dx,
+    f x = Ok fv /\ norm_inf O fv = Ok maxres /\ jacobian O f x (emb O dl) = Ok (J, jev) /\
+    solve_basic J fv = Ok dx /\ length dx = length x /\
+    x' = zipw sub x dx /\ b = leb maxres tl /\ e = x :: jev.
+Proof.
+  unfold sys_step. intros H. inv_bind H. injection H as <- <- <-. destruct x2 as [J jev].
+  unfold vsub_assign, vsub in E3. destruct (Nat.eqb_spec (length x) (length x3)) as [L|]; [|discriminate].
+  injection E3 as <-. exists x0, x1, J, jev, x3. repeat split; auto.
+Qed.
+
+Lemma sysjac_step_inv tl (f : list A -> res (list A)) jac x x' b e :
+  sysjac_step O tl f jac x = Ok (x', b, e) ->
+  exists fv maxres J dx,
+    f x = Ok fv /\ norm_inf O fv = Ok maxres /\ jac x = Ok J /\
+    solve_basic J fv = Ok dx /\ length dx = length x /\
+    x' = zipw sub x dx /\ b = leb maxres tl.
+Proof.
+  unfold sysjac_step. intros H. inv_bind H. injection H as <- <- _.
+  unfold vsub_assign, vsub in E3. destruct (Nat.eqb_spec (length x) (length x3)) as [L|]; [|discriminate].
+  injection E3 as <-. exists x0, x1, x2, x3. repeat split; auto.
+Qed.
+
+(* ---- supplied-Jacobian pass: one call of func and one of jac, both at the iterate ---- *)
+Lemma sysjac_step_calls tl (f : list A -> res (list A)) jac x x' b e :
+  sysjac_step O tl f jac x = Ok (x', b, e) -> e = [CF x; CJ x].
+Proof.
+  unfold sysjac_step. intros H. inv_bind H. now injection H as _ _ <-.
+Qed.
+
+Definition is_CF {X} (c : call X) : bool := match c with CF _ => true | CJ _ => false end.
+Definition is_CJ {X} (c : call X) : bool := match c with CF _ => false | CJ _ => true end.
+
+(* ====================================================================================== *)
+(* C17 P1: bounded work                                                                    *)
+(* ====================================================================================== *)
+Lemma newton_scalar_bounded_lemma (c : ncfg R A) (f : A -> res A) r evs :
+  newton_scalar O c f = Ok (r, evs) -> length evs <= 3 * max_iter c.
+Proof.
+  unfold newton_scalar. apply (nloop_calls_le _ (fun _ => True)); auto.
+  intros x x' b e _ H. apply scalar_step_calls in H as ->. cbn. auto.
+Qed.
+
+Lemma newton_scalar_err_calls_lemma (c : ncfg R A) (f : A -> res A) x evs :
+  newton_scalar O c f = Ok (NErr x, evs) -> length evs = 3 * max_iter c.
+Proof.
+  unfold newton_scalar. apply (nloop_err_calls _ (fun _ => True)); auto.
+  intros y y' b e _ H. apply scalar_step_calls in H as ->. cbn. auto.
+Qed.
+
+Lemma newton_sys_bounded_lemma (c : ncfg R (list A)) (f : list A -> res (list A)) r evs :
+  newton_sys O c f = Ok (r, evs) -> length evs <= (length (guess c) + 2) * max_iter c.
+Proof.
+  unfold newton_sys. apply (nloop_calls_le _ (fun x => length x = length (guess c))); auto.
+  intros x x' b e L H. apply sys_step_calls in H as [L1 L2]. split; lia.
+Qed.
+
+Lemma newton_sysjac_bounded_lemma (c : ncfg R (list A)) (f : list A -> res (list A)) jac r evs :
+  newton_sysjac O c f jac = Ok (r, evs) ->
+  length (filter is_CF evs) <= max_iter c /\ length (filter is_CJ evs) <= max_iter c.
+Proof.
+  unfold newton_sysjac. intros H. split.
+  - replace (max_iter c) with (1 * max_iter c) by lia.
+    eapply (nloop_count_le _ is_CF); [|exact H].
+    intros x x' b e Hs. apply sysjac_step_calls in Hs as ->. cbn. auto.
+  - replace (max_iter c) with (1 * max_iter c) by lia.
+    eapply (nloop_count_le _ is_CJ); [|exact H].
+    intros x x' b e Hs. apply sysjac_step_calls in Hs as ->. cbn. auto.
+Qed.
+
+(* ====================================================================================== *)
+(* C17 P1: the result depends on the function only through its values at the call points    *)
+(* ====================================================================================== *)
+Lemma scalar_step_congr tl dl (f g : A -> res A) x r :
+  scalar_step O tl dl f x = Ok r -> Forall (fun p => f p = g p) (snd r) -> scalar_step O tl dl g x = Ok r.
+Proof.
+  intros H Ha. destruct r as [[x' b] e]. pose proof (scalar_step_calls _ _ _ _ _ _ _ H) as ->.
+  cbn in Ha. inversion Ha as [|? ? G1 Ha1]; subst. inversion Ha1 as [|? ? G2 Ha2]; subst.
+  inversion Ha2 as [|? ? G3 _]; subst.
+  unfold scalar_step in *. now rewrite <- G1, <- G2, <- G3.
+Qed.
+
+Lemma newton_scalar_local_lemma (c : ncfg R A) (f g : A -> res A) r evs :
+  newton_scalar O c f = Ok (r, evs) -> (forall p, In p evs -> f p = g p) ->
+  newton_scalar O c g = Ok (r, evs).
+Proof.
+  unfold newton_scalar. intros H Hin.
+  eapply (nloop_congr _ _ (fun p => f p = g p)) with (e := evs).
+  - intros x r0. apply scalar_step_congr.
+  - exact H.
+  - reflexivity.
+  - apply Forall_forall. exact Hin.
+Qed.
+
+Lemma sysjac_step_congr tl (f g : list A -> res (list A)) (jf jg : list A -> res (matrix A)) x r :
+  sysjac_step O tl f jf x = Ok r ->
+  Forall (fun c => match c with CF p => f p = g p | CJ p => jf p = jg p end) (snd r) ->
+  sysjac_step O tl g jg x = Ok r.
+Proof.
+  intros H Ha. destruct r as [[x' b] e]. pose proof (sysjac_step_calls _ _ _ _ _ _ _ H) as ->.
+  cbn in Ha. inversion Ha as [|? ? G1 Ha1]; subst. inversion Ha1 as [|? ? G2 _]; subst.
+  unfold sysjac_step in *. now rewrite <- G1, <- G2.
+Qed.
+
+Lemma newton_sysjac_local_lemma (c : ncfg R (list A)) (f g : list A -> res (list A)) jf jg r evs :
+  newton_sysjac O c f jf = Ok (r, evs) ->
+  (forall p, In (CF p) evs -> f p = g p) -> (forall p, In (CJ p) evs -> jf p = jg p) ->
+  newton_sysjac O c g jg = Ok (r, evs).
+Proof.
+  unfold newton_sysjac. intros H Hf Hj.
+  eapply (nloop_congr _ _ (fun c => match c with CF p => f p = g p | CJ p => jf p = jg p end)) with (e := evs).
+  - intros x r0. apply sysjac_step_congr.
+  - exact H.
+  - reflexivity.
+  - apply Forall_forall. intros [p|p] Hp; auto.
+Qed.
+
+(* ---- the same for the finite-difference systems: the Jacobian loop records every point at
+        which it calls func, so agreement on the recorded points is enough ---- *)
+Lemma for_from_congr {S} (Good : S -> Prop) (body body' : nat -> S -> res S) :
+  (forall i s s1, body i s = Ok s1 -> Good s1 -> Good s /\ body' i s = Ok s1) ->
+  forall n lo s s', for_from n lo body s = Ok s' -> Good s' -> Good s /\ for_from n lo body' s = Ok s'.
+Proof.
+  intros Hb. induction n as [|n IH]; intros lo s s' H G; cbn in *.
+  - injection H as <-. auto.
+  - apply bind_ok in H as (s1 & E1 & H). destruct (IH _ _ _ H G) as [G1 H1].
+    destruct (Hb _ _ _ E1 G1) as [G0 E1']. split; auto. rewrite E1'. exact H1.
+Qed.
+
+Lemma jacobian_congr (f g : list A -> res (list A)) x d r :
+  jacobian O f x d = Ok r -> Forall (fun p => f p = g p) (snd r) -> jacobian O g x d = Ok r.
+Proof.
+  unfold jacobian. intros H Ha. inv_bind H. destruct x0 as [[st J] ev]. injection H as <-.
+  cbn in Ha. unfold jacobian_tr in *. inv_bind E. rename x0 into f0.
+  unfold for_ in *.
+  assert (Hbody : forall i (s s1 : list A * matrix A * list (list A)),
+            jac_body O f f0 d i s = Ok s1 -> Forall (fun p => f p = g p) (snd s1) ->
+            Forall (fun p => f p = g p) (snd s) /\ jac_body O g f0 d i s = Ok s1).
+  { intros i [[s j] e] s1 Hb G. unfold jac_body in Hb. inv_bind Hb. injection Hb as <-.
+    cbn in G. apply Forall_app in G as [G1 G2]. inversion G2 as [|? ? Gx _]; subst.
+    split; [exact G1|]. unfold jac_body. rewrite E1. cbn [bind]. rewrite E2. cbn [bind].
+    rewrite <- Gx, E3. cbn [bind]. rewrite E4. cbn [bind]. rewrite E5. cbn [bind].
+    rewrite E6. cbn [bind]. rewrite E7. cbn [bind]. rewrite E8. reflexivity. }
+  destruct (for_from_congr (fun s : list A * matrix A * list (list A) =>
+              Forall (fun p => f p = g p) (snd s)) _ _ Hbody _ _ _ _ E Ha) as [G0 E'].
+  cbn in G0. inversion G0 as [|? ? Gx _]; subst. rewrite <- Gx, E0. cbn [bind].
+  rewrite E'. reflexivity.
+Qed.
+
+Lemma sys_step_congr tl dl (f g : list A -> res (list A)) x r :
+  sys_step O tl dl f x = Ok r -> Forall (fun p => f p = g p) (snd r) -> sys_step O tl dl g x = Ok r.
+Proof.
+  intros H Ha. destruct r as [[x' b] e]. unfold sys_step in H. inv_bind H. injection H as <- <- <-.
+  cbn in Ha. inversion Ha as [|? ? Gx Ga]; subst.
+  unfold sys_step. rewrite <- Gx, E. cbn [bind]. rewrite E0. cbn [bind].
+  rewrite (jacobian_congr f g x (emb O dl) x2 E1 Ga). cbn [bind]. rewrite E2. cbn [bind].
+  rewrite E3. reflexivity.
+Qed.
+
+Lemma newton_sys_local_lemma (c : ncfg R (list A)) (f g : list A -> res (list A)) r evs :
+  newton_sys O c f = Ok (r, evs) -> (forall p, In p evs -> f p = g p) ->
+  newton_sys O c g = Ok (r, evs).
+Proof.
+  unfold newton_sys. intros H Hin.
+  eapply (nloop_congr _ _ (fun p => f p = g p)) with (e := evs).
+  - intros x r0. apply sys_step_congr.
+  - exact H.
+  - reflexivity.
+  - apply Forall_forall. exact Hin.
+Qed.
+
+End Steps.
+
+(* ====================================================================================== *)
+(* C18                                                                                      *)
+(* ====================================================================================== *)
+Section Jacobian.
+Context (O : NOps).
+Notation A := (NA O).
+
+(* ---- shape: m x n for every m, n (uses the repaired set_col: column i < n = cols) ---- *)
+Lemma jacobian_shape_lemma (f : list A -> res (list A)) (x : list A) (d : A) (m : nat) :
+  (forall y, length y = length x -> exists v, f y = Ok v /\ length v = m) ->
+  (forall a : A, exists q, div a d = Ok q) ->
+  exists J evs, jacobian O f x d = Ok (J, evs) /\
+                wf J /\ rows J = m /\ cols J = length x /\ length evs = S (length x).
+Proof.
+  intros Hf Hd. unfold jacobian, jacobian_tr.
+  destruct (Hf x eq_refl) as (f0 & -> & L0). cbn [bind]. rewrite L0.
+  set (n := length x).
+  destruct (for_inv (fun i (s : list A * matrix A * list (list A)) =>
+              let '(st, J, ev) := s in
+              length st = n /\ wf J /\ rows J = m /\ cols J = n /\ length ev = S i)
+              0 n (jac_body O f f0 d) (x, mat_new m n zero, [x])) as ([[st J] ev] & E & I);
+    [lia| | |].
+  - repeat split; auto. unfold wf, mat_new; cbn. now rewrite repeat_length.
+  - intros i [[st J] ev] Hi (Ls & W & Rw & Cl & Le). unfold jac_body.
+    rewrite (rd_ok st i zero) by lia. cbn [bind].
+    rewrite upd_ok by lia. cbn [bind].
+    destruct (Hf (upd_list st i (add (nth i st zero) d))) as (fnew & -> & Ln);
+      [rewrite upd_list_length; exact Ls|]. cbn [bind].
+    rewrite (rd_ok _ i zero) by (rewrite upd_list_length; lia). cbn [bind].
+    rewrite upd_ok by (rewrite upd_list_length; lia). cbn [bind].
+    rewrite nw_vsub_ok by lia. cbn [bind].
+    destruct (nw_mapM_total (fun a => div a d) (zipw sub fnew f0) Hd) as (col & Ec).
+    unfold vdiv. rewrite Ec. cbn [bind].
+    assert (Lc : length col = m).
+    { apply nw_mapM_length in Ec. rewrite Ec, nw_zipw_length; lia. }
+    destruct (nw_set_col_total J i col W) as (J' & EJ); [lia|lia|].
+    rewrite EJ. cbn [bind]. eexists; split; [reflexivity|].
+    apply nw_set_col_shape in EJ as (R1 & C1 & B1).
+    repeat split.
+    + now rewrite !upd_list_length.
+    + unfold wf in *. rewrite B1, R1, C1. exact W.
+    + congruence.
+    + congruence.
+    + rewrite app_length. cbn. lia.
+  - rewrite E. cbn. destruct I as (_ & W & Rw & Cl & Le).
+    exists J, ev. repeat split; auto.
+Qed.
+
+(* partial-correctness form, for an arbitrary (possibly panicking, possibly ragged) function *)
+Lemma jacobian_shape_partial (f : list A -> res (list A)) (x : list A) (d : A) J evs :
+  jacobian O f x d = Ok (J, evs) ->
+  exists f0, f x = Ok f0 /\ rows J = length f0 /\ cols J = length x /\
+             length (buf J) = length f0 * length x.
+Proof.
+  unfold jacobian. intros H. inv_bind H. destruct x0 as [[st J'] ev]. injection H as <- _.
+  unfold jacobian_tr in E. inv_bind E. exists x0. split; auto.
+  eapply (for_inv_partial (fun _ (s : list A * matrix A * list (list A)) =>
+            rows (snd (fst s)) = length x0 /\ cols (snd (fst s)) = length x /\
+            length (buf (snd (fst s))) = length x0 * length x)) in E; auto; [lia| |].
+  - cbn. now rewrite repeat_length.
+  - intros i [[s j] e] s1 _ (R1 & C1 & B1) Hb. cbn in R1, C1, B1.
+    unfold jac_body in Hb. inv_bind Hb. injection Hb as <-. cbn.
+    apply nw_set_col_shape in E8 as (R2 & C2 & B2). repeat split; congruence.
+Qed.
+
+End Jacobian.
+
+(* ---- call points: x, x + d e_0, ..., x + d e_{n-1}; each coordinate restored (ring) ---- *)
+Section JacobianCalls.
+Context (O : NOps) (RL : RingLaws (NA O)).
+Notation A := (NA O).
+Add Ring Aring : (rl_ring A RL).
+
+(* x + d e_j *)
+Definition perturbed (x : list A) (d : A) (j : nat) : list A := upd_list x j (add (nth j x zero) d).
+
+Lemma jacobian_tr_calls (f : list A -> res (list A)) (x : list A) (d : A) st J evs :
+  jacobian_tr O f x d = Ok (st, J, evs) ->
+  st = x /\ evs = x :: map (perturbed x d) (seq 0 (length x)).
+Proof.
+  unfold jacobian_tr. intros H. inv_bind H.
+  apply (for_inv_partial (fun i (s : list A * matrix A * list (list A)) =>
+           fst (fst s) = x /\ snd s = x :: map (perturbed x d) (seq 0 i))
+           0 (length x) _ _ _ (Nat.le_0_l _)) in H; auto.
+  intros i [[s j] ev] s1 Hi (Hs & He) Hb. cbn in Hs, He. subst s ev.
+  unfold jac_body in Hb. inv_bind Hb. injection Hb as <-. cbn [fst snd].
+  apply (rd_Ok_inv _ _ _ zero) in E0 as [Li ->].
+  apply upd_Ok_inv in E1 as [_ ->].
+  apply (rd_Ok_inv _ _ _ zero) in E3 as [_ ->].
+  apply upd_Ok_inv in E4 as [_ ->].
+  rewrite (nth_upd_list x i i _ zero Li), Nat.eqb_refl, nw_upd_list_twice.
+  replace (sub (add (nth i x zero) d) d) with (nth i x zero) by ring.
+  rewrite nw_upd_list_same. split; auto.
+  rewrite seq_S, map_app. cbn. reflexivity.
+Qed.
+
+Lemma jacobian_calls_lemma (f : list A -> res (list A)) (x : list A) (d : A) J evs :
+  jacobian O f x d = Ok (J, evs) -> evs = x :: map (perturbed x d) (seq 0 (length x)).
+Proof.
+  unfold jacobian. intros H. inv_bind H. destruct x0 as [[st J'] ev]. injection H as _ <-.
+  now apply jacobian_tr_calls in E as [_ ->].
+Qed.
+
+End JacobianCalls.
